@@ -1610,6 +1610,12 @@ func (x *X) callFn(fn *ssa.Function, args []Value, bind []Value, cc *ssa.CallCom
 		if !x.E.InModule(fn.Pkg.Pkg.Path()) {
 			return nil // std package initialisers are not run
 		}
+		for _, skip := range []string{"/pkg/logging", "/stack/stackinit", "/config", "/protocol/link/rawfile", "/protocol/link/tuntap"} {
+			if fn.Pkg.Pkg.Path() == ModulePath+skip {
+				x.note("package initialiser not run (file / device I/O): " + skip)
+				return nil
+			}
+		}
 	}
 	return x.call(fn, args, bind)
 }
